@@ -103,7 +103,19 @@ func (bitrot) Generate(r *core.PRNG, tier string, idx int64) any {
 			sc.Ops = append(sc.Ops, MuxOp{Op: "tables", H: -1})
 		}
 		if r.Bool() {
-			sc.Ops = append(sc.Ops, MuxOp{Op: "remove", H: 0}, MuxOp{Op: "tables", H: -1})
+			// the PMT shrinks: the last stream added goes (stream 0 carries the PCR), or the PCR
+			// moves first
+			last := -1
+			for i, op := range sc.Ops {
+				if op.Op == "add" {
+					last = i
+				}
+			}
+			if last > 0 {
+				sc.Ops = append(sc.Ops, MuxOp{Op: "remove", H: last}, MuxOp{Op: "tables", H: -1})
+			} else {
+				sc.Ops = append(sc.Ops, MuxOp{Op: "remove", H: 0}, MuxOp{Op: "tables", H: -1})
+			}
 		}
 		if r.Chance(1, 3) {
 			// a writer that fails once somewhere in a history of small units and table emissions
